@@ -306,8 +306,13 @@ static int inv_user(const struct tun_user *u) { return inv_user_x(u, 0); }
 static int same_addr(const struct sockaddr_storage *a, const struct sockaddr_storage *b)
 {
 	const struct sockaddr_in6 *x = (const struct sockaddr_in6 *) a, *y = (const struct sockaddr_in6 *) b;
-	return x->sin6_family == y->sin6_family && x->sin6_port == y->sin6_port && x->sin6_flowinfo == y->sin6_flowinfo &&
-	       x->sin6_scope_id == y->sin6_scope_id && x->sin6_addr.s6_addr[IN.kf & 15] == y->sin6_addr.s6_addr[IN.kf & 15];
+	/* the first AFLEN bytes: the server copies and uses exactly that many */
+	int ok = x->sin6_family == y->sin6_family && x->sin6_port == y->sin6_port && x->sin6_flowinfo == y->sin6_flowinfo;
+#if AFLEN == 16
+	return ok && x->sin6_addr.s6_addr[IN.kf & 7] == y->sin6_addr.s6_addr[IN.kf & 7];
+#else
+	return ok && x->sin6_scope_id == y->sin6_scope_id && x->sin6_addr.s6_addr[IN.kf & 15] == y->sin6_addr.s6_addr[IN.kf & 15];
+#endif
 }
 static int same_query(const struct query *a, const struct query *b)
 {
@@ -880,6 +885,11 @@ void harness(void)
 					if (h->id2 != 0 && h->id2 == sid) {
 						found2 = 1;
 						VASSERT(!answered[j], "a remembered duplicate is not yet answered");
+						VASSERT(h->type == src[j]->type && h->name[IN.kn] == src[j]->name[IN.kn],
+							"a remembered duplicate asks the same question as the held query it is attached to");
+						VASSERT(isdup ? (h->fromlen2 == src[j]->fromlen2 && same_addr(&h->from2, &src[j]->from2))
+							      : (h->fromlen2 == src[j]->fromlen && same_addr(&h->from2, &src[j]->from)),
+							"a remembered duplicate keeps its own sender address");
 					}
 				}
 				VASSERT(found, "a held query is one that was received");
